@@ -288,7 +288,7 @@ def gen_nearmiss(rng):
   """-> (source, description).  half of them are exactly well-typed, the others off by one somewhere"""
   w = rng.choice([1, 2, 3, 4, 7, 8, 9, 16, 31, 32, 33, 48, 49, 50, 63, 64, 65, 100])
   d = rng.choice([0, 0, 1, -1]) if w > 1 else rng.choice([0, 1])
-  shape = rng.randrange(21)
+  shape = rng.randrange(23)
   wa, wb, wo = w, w + d, w
   lit_k = rng.choice([w - 1, w, w + 1, w, w])
   lit = rng.choice([(1 << lit_k) - 1, 1 << lit_k, (1 << lit_k) + 1]) if lit_k >= 0 else 1
@@ -348,6 +348,25 @@ def gen_nearmiss(rng):
       wb = K
       stmt = rng.choice([f"s.o @= s.a {op} Bits{K}(s.b)", f"s.o1 @= Bits{K}(s.b) {cmp_} s.a", f"s.o @= Bits{K}(s.b)"])
     d = w - K
+  elif shape == 21:
+    # a temporary that is an explicitly sized value on one path and an integer literal on the other (either order), then used
+    # where a DIFFERENT width is wanted: the literal must not make the temporary re-interpretable
+    small = rng.choice([0, 1, 1])
+    if rng.random() < 0.6: wb = 1          # the literals 0 / 1 are 1-bit values: the two assignments agree on the temporary's type
+    br = [f"x = s.b", f"x = {small}"]
+    if rng.random() < 0.5: br.reverse()
+    use = rng.choice([f"s.o @= x", f"s.o @= s.a {op} x", f"s.o1 @= s.a {cmp_} x"])
+    stmt = f"if s.c:\n        {br[0]}\n      else:\n        {br[1]}\n      {use}"
+  elif shape == 22:
+    # explicitly sized constants under an operator: the result keeps the explicit width (and wraps), whatever the folded value
+    wb = w
+    k = min(w, 16)
+    c1, c2 = rng.choice([(1 << k) - 1, 1 << (k - 1), 1, 3]) & ((1 << w) - 1), rng.choice([(1 << k) - 1, 1 << (k - 1), 1, 2]) & ((1 << w) - 1)   # each fits its cast
+    wo = max(1, w + rng.choice([0, 0, 1, -1]))
+    cw = f"Bits{w}" if w <= 255 else f"mk_bits({w})"
+    stmt = rng.choice([f"s.o @= {cw}({c1}) {op} {cw}({c2})", f"s.o @= {cw}({c1}) << 1", f"s.o @= ({cw}({c1}) {op} {cw}({c2})) {op} s.a"])
+    if "s.a" in stmt: wa = wo
+    d = wo - w
   else: stmt = f"s.o @= concat(s.a[0:{max(1, w // 2)}], s.b[0:{w - max(1, w // 2) if w > 1 else 1}])"
   return NM_TMPL.format(wa=wa, wb=max(1, wb), wo=wo, stmt=stmt), {"shape": shape, "w": w, "delta": d, "literal": lit, "stmt": stmt}
 
